@@ -8,14 +8,14 @@ Proof. unfold eff_max. destruct (max =? 0) eqn:E; [reflexivity|]. apply N.eqb_ne
 
 Lemma take_take_min n m (l : bytes) : n <= m -> take n (take m l) = take n l.
 Proof.
-  intros H. unfold take. rewrite firstn_firstn. f_equal. lia.
+  intros H. rewrite !take_firstn. rewrite firstn_firstn. f_equal. lia.
 Qed.
 
 Lemma take_all n (l : bytes) : len l <= n -> take n l = l.
-Proof. intros H. unfold take, len in *. apply firstn_all2. lia. Qed.
+Proof. intros H. rewrite take_firstn. unfold len in *. apply firstn_all2. lia. Qed.
 
 Lemma len_take n (l : bytes) : len (take n l) = N.min n (len l).
-Proof. unfold len, take. rewrite firstn_length. lia. Qed.
+Proof. rewrite take_firstn. unfold len. rewrite firstn_length. lia. Qed.
 
 Lemma len_app (x y : bytes) : len (x ++ y) = len x + len y.
 Proof. unfold len. rewrite app_length. lia. Qed.
@@ -137,7 +137,7 @@ Proof.
 Qed.
 
 Lemma length_drop n (l : bytes) : length (drop n l) = (length l - N.to_nat n)%nat.
-Proof. unfold drop. apply skipn_length. Qed.
+Proof. rewrite drop_skipn. apply skipn_length. Qed.
 
 (* every effective flush strictly decreases bytes + pieces still queued *)
 Theorem flush_backlog max o c c' r :
